@@ -101,7 +101,9 @@ func C19(c *fw.Ctx) {
 	c.Rule(fmt.Sprintf("every subset of size 1 and 2 of the 31 directive kinds (496 configurations) x %d projects (6 hand-made ones that together use all "+
 		"31 kinds directly, inside INCLUDEd files, inside pasted and unused MACRO bodies; the rest drawn from the corpus, preferring includes and "+
 		"macros), each built through kit.NewJapi(path, option) and through core.NewJApiCore(file, option).BuildCatalog(); which kinds a project "+
-		"contains is taken from the scan-phase directive tree of the build without the option; distinct = distinct (project, configuration, API); "+
+		"contains is taken from the scan-phase directive tree of the build without the option; plus 25 documents in which the banned " +
+		"directive has a fault of its own (missing file, bad parameter, missing body, duplicate ...) - the ban must win; plus sequences of builds that reuse Option VALUES " +
+		"([A], [A,B], [A], [], [B], [B,A], [B] in one process): equal options must give equal results whatever other builds got; distinct = distinct (project, configuration, API); "+
 		"non-trivial = every case", nProj))
 	c.Assume("presence of a kind is read from the phase-snapshot hook of the unrestricted build (INCLUDE: from the file-access hook)")
 	pool := c.Pool(false, 0)
@@ -253,6 +255,151 @@ func C19(c *fw.Ctx) {
 		}
 		if c.NeedSample() && len(s) == 2 {
 			c.Sample(map[string]interface{}{"project": b.name, "banned": s, "present": present, "error": e.Msg, "file": relName(res, e.File), "line": e.Line, "via_core": via})
+		}
+	})
+	// A banned directive that has a fault of its own is still reported as banned: the ban is about the occurrence of the keyword.
+	type faulty struct {
+		doc, kind string
+		line      int
+		files     map[string]string
+	}
+	faulties := []faulty{
+		{"JSIGHT 0.3\nINCLUDE missing.jst\n", "INCLUDE", 2, nil},
+		{"JSIGHT 0.3\nINCLUDE ..\n", "INCLUDE", 2, nil},
+		{"JSIGHT 0.3\nINCLUDE /etc/passwd\n", "INCLUDE", 2, nil},
+		{"JSIGHT 0.3\nINCLUDE\n", "INCLUDE", 2, nil},
+		{"JSIGHT 0.3\nINCLUDE sub\n", "INCLUDE", 2, map[string]string{"sub/x.jst": "TYPE @x any\n"}},
+		{"JSIGHT 0.3\nTYPE @a any\nINCLUDE \"a b\n", "INCLUDE", 3, nil},
+		{"JSIGHT 0.3\nGET /a\n  200 any\nINCLUDE root.jst\n", "INCLUDE", 4, nil},
+		{"JSIGHT 0.3\nGET /a\n  PASTE @nowhere\n  200 any\n", "PASTE", 3, nil},
+		{"JSIGHT 0.3\nGET /a\n  PASTE\n  200 any\n", "PASTE", 3, nil},
+		{"JSIGHT 0.3\nMACRO\n(\n  200 any\n)\n", "MACRO", 2, nil},
+		{"JSIGHT 0.3\nMACRO @m\n(\n  PASTE @m\n)\n", "MACRO", 2, nil},
+		{"JSIGHT 0.3\nTYPE\n  1\n", "TYPE", 2, nil},
+		{"JSIGHT 0.3\nTYPE @t\n  {\"a\": @nowhere}\n", "TYPE", 2, nil},
+		{"JSIGHT 0.3\nENUM @e\n", "ENUM", 2, nil},
+		{"JSIGHT 0.3\nENUM @e\n  [1, 1]\n", "ENUM", 2, nil},
+		{"JSIGHT 0.3\nGET\n  200 any\n", "GET", 2, nil},
+		{"JSIGHT 0.3\nGET /a // ann\n  Tags @none\n  200 any\n", "Tags", 3, nil},
+		{"JSIGHT 0.3\nGET /a\n  200\n", "HTTP-response-code", 3, nil},
+		{"JSIGHT 0.3\nGET /a\n  200 any\nGET /a\n  200 any\n", "GET", 2, nil},
+		{"JSIGHT 0.3\nSERVER @s\n", "SERVER", 2, nil},
+		{"JSIGHT 0.3\nTAG\n", "TAG", 2, nil},
+		{"JSIGHT 0.3\nURL /a\n  Protocol soap\n", "Protocol", 3, nil},
+		{"JSIGHT 0.3\nGET /a\n  Description\n  200 any\n", "Description", 3, nil},
+		{"JSIGHT 0.3\nINFO\n  Title\n", "Title", 3, nil},
+		{"JSIGHT 9.9\n", "JSIGHT", 1, nil},
+	}
+	c.RunJobs(pool, func(emit func(*proto.Job)) {
+		for i, f := range faulties {
+			for _, via := range []bool{false, true} {
+				files := map[string][]byte{"root.jst": []byte(f.doc)}
+				for k, v := range f.files {
+					files[k] = []byte(v)
+				}
+				emit(&proto.Job{ID: fmt.Sprintf("faulty/%d/%v", i, via), Root: "root.jst", Files: files, Banned: []string{f.kind}, ViaCore: via, WantFiles: true})
+			}
+		}
+	}, func(j *proto.Job, res *proto.Result) {
+		if workerProblem(c, res) {
+			return
+		}
+		var i int
+		var via bool
+		fmt.Sscanf(strings.ReplaceAll(strings.TrimPrefix(j.ID, "faulty/"), "/", " "), "%d %v", &i, &via)
+		f := faulties[i]
+		c.Count(j.ID, true)
+		c.Inc("cases", "banned-directive-with-a-fault-of-its-own", 1)
+		rp := replayOf(j, res)
+		if sig, what := crashSig(res); sig != "" {
+			c.Violate(sig, what, rp)
+			return
+		}
+		if res.Accepted || res.Err == nil {
+			c.Violate("ban:escaped:"+f.kind, fmt.Sprintf("a document with a banned %s (line %d) was accepted", f.kind, f.line), rp)
+			return
+		}
+		if want := "the directive is not allowed (" + f.kind + ")"; !strings.HasPrefix(res.Err.Msg, want) {
+			c.Violate("ban:wrong-error:faulty-"+f.kind, fmt.Sprintf("banned %s written with a fault of its own on line %d: expected %q, got %q at line %d", f.kind, f.line, want, res.Err.Msg, res.Err.Line), rp)
+			return
+		}
+		if res.Err.Line != f.line || relName(res, res.Err.File) != "root.jst" {
+			c.Violate("ban:location:"+f.kind, fmt.Sprintf("banned %s is on root.jst:%d, error says %s:%d", f.kind, f.line, relName(res, res.Err.File), res.Err.Line), rp)
+		}
+		if f.kind == "INCLUDE" {
+			for _, e := range res.Files {
+				if e.Op != "read-root" {
+					c.Violate("ban:include-consulted-file-system", fmt.Sprintf("INCLUDE is banned but the builder did %s %s", e.Op, e.Path), rp)
+					break
+				}
+			}
+		}
+	})
+	// Option values that are reused. A caller may keep its options in variables and hand them to many builds; a build configured with
+	// the options (A) must behave the same before and after an unrelated build got (A, B). One job = one worker process = one
+	// sequence of builds with process-wide Option values: [A], [A,B], [A], [], [B], [B,A], [B].
+	type reuse struct {
+		name string
+		a, b string
+	}
+	reuses := map[string]reuse{}
+	c.RunJobs(pool, func(emit func(*proto.Job)) {
+		rr := gen.Rng(c.Seed, c.ID, "option-reuse")
+		for i, bs := range bases {
+			if bs == nil || !bs.accepted || bs.kinds == nil {
+				continue
+			}
+			var absent, present []string
+			for _, k := range allKinds {
+				if len(bs.kinds[k]) > 0 {
+					present = append(present, k)
+				} else if k != "INCLUDE" {
+					absent = append(absent, k)
+				}
+			}
+			if len(absent) == 0 || len(present) == 0 {
+				continue
+			}
+			for q := 0; q < c.Pick(3, 10); q++ {
+				a, b := absent[rr.Intn(len(absent))], present[rr.Intn(len(present))]
+				id := fmt.Sprintf("reuse/%d/%d", i, q)
+				maxMuLock.Lock()
+				reuses[id] = reuse{bs.name, a, b}
+				maxMuLock.Unlock()
+				emit(&proto.Job{ID: id, Root: bs.proj.Root, Files: bs.proj.Files, Ops: []string{"json"}, Fresh: q == 0,
+					OptSeq: [][][]string{{{a}}, {{a}, {b}}, {{a}}, {}, {{b}}, {{b}, {a}}, {{b}}}})
+			}
+		}
+	}, func(j *proto.Job, res *proto.Result) {
+		if workerProblem(c, res) {
+			return
+		}
+		maxMuLock.Lock()
+		ru := reuses[j.ID]
+		maxMuLock.Unlock()
+		c.Count(j.ID+ru.name+ru.a+ru.b, true)
+		c.Inc("cases", "option-values-reused-across-builds", 1)
+		rp := replayOf(j, res)
+		if res.Fatal != nil {
+			c.Violate("fatal:"+res.Fatal.Kind+":"+res.Fatal.Func, "worker died during the option-reuse sequence: "+firstLines(res.Fatal.Stderr, 4), rp)
+			return
+		}
+		if len(res.OptSigs) != 7 {
+			c.Inconclusive("option-reuse sequence did not return 7 results")
+			return
+		}
+		s := res.OptSigs
+		if s[0] != s[2] {
+			c.Violate("ban:reused-option-value-remembers-other-builds", fmt.Sprintf("%s: the build with the option value ban(%s) gives another result after an unrelated build got ban(%s), ban(%s): %s  VS  %s", ru.name, ru.a, ru.a, ru.b, trunc(s[0], 200), trunc(s[2], 200)), rp)
+		}
+		if s[4] != s[6] {
+			c.Violate("ban:reused-option-value-remembers-other-builds", fmt.Sprintf("%s: the build with the option value ban(%s) gives another result after an unrelated build got ban(%s), ban(%s): %s  VS  %s", ru.name, ru.b, ru.b, ru.a, trunc(s[4], 200), trunc(s[6], 200)), rp)
+		}
+		if !strings.Contains(s[0], "accepted=true") || !strings.Contains(s[3], "accepted=true") {
+			c.Violate("ban:absent-kind-changes-result", fmt.Sprintf("%s contains no %s but the build with ban(%s) (or without options) is rejected: %s", ru.name, ru.a, ru.a, trunc(s[0], 200)), rp)
+		}
+		if strings.Contains(s[1], "accepted=true") || strings.Contains(s[4], "accepted=true") || strings.Contains(s[5], "accepted=true") {
+			c.Violate("ban:escaped:"+ru.b, fmt.Sprintf("%s contains %s but a build with the reused option value ban(%s) succeeded", ru.name, ru.b, ru.b), rp)
 		}
 	})
 	c.Extra("kinds_banned_while_present", kindsBannedAndPresent.len())
